@@ -20,6 +20,7 @@ type Decl struct {
 	text  string // full SMT command
 	owner string // for asserts: included iff owner symbol is needed ("" = always)
 	deps  []string
+	soft  bool // definitional axiom of a fresh symbol (always satisfiable): omitted from vacuity (must-be-SAT) queries
 }
 
 type Obligation struct {
@@ -122,6 +123,14 @@ func (c *Ctx) defineBool(prefix string, term Sx) Sx { return c.define(prefix, "B
 // axiom attached to an owner symbol
 func (c *Ctx) axiom(owner string, term Sx) {
 	c.addDecl("", fmt.Sprintf("(assert %s)", term), owner)
+}
+
+// softAxiom: a quantified definitional axiom about a fresh symbol (frame of a call, contents of a
+// concatenation ...). Such axioms are satisfiable by construction; they are left out of the
+// must-be-SAT vacuity queries, where quantifiers would only make the solvers answer "unknown".
+func (c *Ctx) softAxiom(owner string, term Sx) {
+	c.addDecl("", fmt.Sprintf("(assert %s)", term), owner)
+	c.decls[len(c.decls)-1].soft = true
 }
 
 func (c *Ctx) declFun(name string, argSorts []Sx, res Sx) {
@@ -406,6 +415,9 @@ func (c *Ctx) emitWith(o *Obligation, obs []obsTerm) string {
 				b.WriteString(d.text + "\n")
 			}
 		} else if d.owner == "" || need[d.owner] {
+			if d.soft && o.ExpectSat {
+				continue
+			}
 			b.WriteString(d.text + "\n")
 		}
 	}
